@@ -13,7 +13,10 @@ symbolic integer matrices (identity + up to 3 matrices with entries in {−1,0,1
 every path a triple of images of the returned directions is linearly independent and the minus flag is right; a model
 is reported only if a *real* site-symmetry group fails too — **sitesym_groups** evaluates both statements on 516 integer
 rotation groups (point groups of all 530 Hall settings in spglib's database and their ≤2-generator subgroups).  *Outside*: harmonic models that are not
-pair-spring models (the invariant subspace is larger than the spring family), ALM/symfc, rounding."""
+pair-spring models (the invariant subspace is larger than the spring family), ALM/symfc, rounding.
+After the third seed round: compact-format units on 2×1×1 supercells of the wurtzite, P3 and body-centred cells, where
+`atom_list` (the primitive atoms' supercell indices) is not `0..n-1`, so that an index into the list and an atom index
+differ."""
 AS["C02"] = """**As built** (`checks/c02.py`).  As planned for (a) and (b); q stays concrete here (symbolic q is used
 in C12, where the derivative needs it).  The kernel is entered through the *real* `run_dynamical_matrix_solver_c` and
 the real glue `py_dynamical_matrices_with_dd_openmp_over_qpoints`, for dense and sparse shortest-vector storage and full and
@@ -30,7 +33,10 @@ the value is not unique instead of keeping a `ToInt` term.  The classic/SNF latt
 classic path divides by the multiplicity in floats).  Negative-determinant matrices are rejected by phonopy with an
 error and are excluded.  (b) `SNF3x3.run` on `SI` integers: upper-triangular entries in [−1,1] in quick, all nine
 entries and |entries| ≤ 2 slices in thorough; matrices with `a00 = 0` needed `__rdivmod__` on `SI`.  Primitive maps
-and translation permutations are ground facts.  Found defect F9.  Quick 38 s."""
+and translation permutations are ground facts; after the third seed round also the *refusal* clause for `Primitive`: rock salt
+with its Cl sublattice split into `Cl`/`Cl1` (indexed symbols are distinct species), `Cl`/`Br`, or not at all, and every
+centring in {P, A, C, F, I}: the centrings that remain translations must build with matching species, the others must
+raise.  Found defect F9.  Quick 38 s."""
 AS["C05"] = """**As built** (`checks/c05.py`).  (ii) window completeness as planned with R = 3 (quick) / 4 (thorough)
 on ten lattices, one LRA query per outside point; plus a new unit **reduction**: `_transform_cell_basis` executed in E2
 on symbolic positions proves that what is handed to the kernel lies in [−½,½]³ of the *reduced* basis and equals
@@ -107,12 +113,22 @@ alarm on `distribute_fc2` (§6) with the clauses the Python layer guarantees (`m
 of `atom_list`, `atom_list` entries distinct, grid mapping idempotent); a `sat` obligation is reported only if the
 ASan/UBSan build confirms it on the model's maps, otherwise it is listed as unconfirmed.  *race*: 11 clang-outlined
 OpenMP bodies (10 in `c/*.c` and the loop in `_phonopy.cpp`), two symbolic iterations each; OpenMP IR on one thread =
-serial IR.  Quick 25 s."""
+serial IR.  *ref* (added after the third seed round, when a wrong dielectric component in `get_dC` passed this check and
+was caught only by C12's): the clause "same result as the reference implementation" is decided kernel by kernel by the
+`c_vs_py`/`kernel` units of C02, C07, C10, C11 and C12 (compiled kernel from IR vs the Python version or the documented
+formula, on symbolic force constants, Born charges, frequencies); eight of them (fifteen in thorough) are now *also run
+under this property's id*, so that `bin/check C13` alone answers for the whole statement.  Quick 25 s + 90 s for the
+reference units."""
 AS["C14"] = """**As built** (`checks/c14.py`).  As planned, with `use_openmp()` of the extension a configuration flag
 enumerated over {0,1} (the bridge reports it), and a **group-velocity history** unit (a call with a perturbation
 direction followed by calls without one must equal a fresh object) added after the C14 seed showed that the option
 product alone misses state carried between calls.  Found defect F1.  `Mesh._set_phonon` has the same
-eigenvector/dynamical-matrix aliasing but does not report D, so no property is violated there (§9).  Quick 2 s."""
+eigenvector/dynamical-matrix aliasing but does not report D, so no property is violated there (§9).  After the third
+seed round a **band_nac** unit: with NAC parameters set, `DynamicalMatrixNAC.run` is replaced by a contract stub whose
+symbolic matrix depends on q and — at Γ only — on the Cartesian approach direction up to sign and length, computed from
+the `q_direction` argument *read as reduced coordinates* (the method's documented contract).  Four band segments
+(starting at, ending at, passing through, and avoiding Γ) on a triclinic and a hexagonal cell must report the phonons
+of D(Γ; segment direction), and so must a q-point list with `nac_q_direction` = segment direction.  Quick 2 s."""
 AS["C15"] = """**As built** (`checks/c15.py`).  All histories of length ≤ 2 over {F(B), S, C, Nw, Ng, N0, M, Q, P} (P =
 `generate_displacements` + `forces=` symbolic + `produce_force_constants`, i.e. dataset replacement and the
 finite-displacement solver inside the history; the caller's force array must stay untouched) plus
@@ -134,7 +150,15 @@ cation-first, three species — comparing metric tensors and (species, position 
 re-read on every run); new **lattice** unit: `wien2k._transform_axis`, `cells.get_cell_matrix` and the CP2K
 `abc/alpha_beta_gamma` branch run in E2 with symbolic lengths and angles (cos/sin uninterpreted with sin²+cos² = 1),
 Gram matrix compared with (a², b², c², bc cos α, ca cos β, ab cos γ); CrossHair on `sort_positions_by_symbols`;
-`check_agreements_of_displacements` with symbolic points.  Found defect F6.  `load()` defaults were not encoded.
+`check_agreements_of_displacements` with symbolic points.  After the third seed round a **wien2k** unit for the FORCE_SETS
+clause: `wien2k._distribute_forces` (forces listed in `case.scf` for symmetry-inequivalent atoms only → all atoms) runs
+in E2 on *symbolic forces* (an arbitrary vector per listed atom, projected on that atom's site-symmetric subspace) for
+three displaced supercells (rock salt displaced along [100] and [111], a rutile-like tetragonal cell along c) × three
+choices of which member of each orbit the file lists; z3 decides (linear real arithmetic) that every listed atom
+receives its listed force and that the result is mapped into itself by every symmetry operation of the displaced
+supercell (F[g(i)] = R_g F[i], permutations and Cartesian rotations computed in the check) — together these determine
+the force field uniquely.  A model is replayed through the public `parse_set_of_forces` on generated `case.scf` files
+(`:POS`/`:FGL` lines) holding the forces of a central pair model.  Found defect F6.  `load()` defaults were not encoded.
 Quick 13 s."""
 AS["C19"] = """**As built** (`checks/c19.py`) — *larger than planned*: the design round expected only a bilinear
 transcription identity; three observations made the canonical-covariance claim itself solver-decidable.  (1) The CIF
